@@ -829,6 +829,29 @@ Proof.
                       (top_entry_arg _ _ _ _ _ _ Ed Em FE)) as N.
         rewrite nm_cons in N. apply app_eq_nil in N. tauto. }
     rewrite G1, G2. simpl.
+    (* (4) sections of other subcommands that are kept *)
+    assert (G4 : flat_map (fun kw : str * cv =>
+                   match assoc (fst kw) (s_map sb) with
+                   | Some sa =>
+                       if match chosen with Some s => str_eqb (fst kw) s | None => false end
+                          || mem_str (fst kw) (discarded md sb l)
+                       then [] else map (cons (K (fst kw))) (nest_missing sa (snd kw))
+                   | None => []
+                   end) l = []).
+    { apply flat_map_nil. intros [k w] HIn. simpl.
+      destruct (assoc k (s_map sb)) as [sa|] eqn:Em; [|reflexivity].
+      destruct (match chosen with Some s => str_eqb k s | None => false end || mem_str k (discarded md sb l)) eqn:B; [reflexivity|].
+      apply orb_false_iff in B. destruct B as [_ Md].
+      assert (Hkd : k <> s_dest sb).
+      { intros X. subst k. apply mem_assoc_some in Em. rewrite (wf_dest_sub _ _ W Hs) in Em. discriminate. }
+      assert (In (k, w) l') as HIn' by (rewrite Hl'; apply in_select; auto).
+      pose proof (top_entries _ _ _ _ _ Hs H1 k w HIn') as FE.
+      destruct (is_dict w) eqn:D.
+      - rewrite (walk_nm (schk fuel) (schk_nm fuel) w sa None (Some k) [k]); [reflexivity|].
+        eapply top_entry_section; eauto.
+        destruct (str_eqb k (s_dest sb)) eqn:E; [apply str_eqb_spec in E; contradiction|reflexivity].
+      - rewrite nm_not_dict; auto. }
+    rewrite G4, app_nil_r.
     (* (3) the subcommand in force *)
     destruct chosen as [s|].
     + destruct (assoc s (s_map sb)) as [sa|] eqn:Em.
